@@ -170,14 +170,14 @@ def worker(task, col):
     M.Tap(DSG, 'resolve_single_selection_choices', counter=col.count)
     if task.get('replay'):
         v = task['replay']['violation']
-        check_case(prop, v['spec'], col, 'replay')
+        common.guard(col, check_case, prop, v['spec'], col, 'replay')
         return
     if task['shard'] == 0:
         for c in common.corpus(prop):
-            check_case(prop, c['spec'], col, 'corpus')
+            common.guard(col, check_case, prop, c['spec'], col, 'corpus')
     for i in range(task['lo'], task['hi']):
         name, sp = case_spec(prop, task['seed'], i)
-        check_case(prop, sp, col, name)
+        common.guard(col, check_case, prop, sp, col, name)
 
 
 def main(run, prop=None):
